@@ -31,6 +31,12 @@ func parseOpts(s string) SysOpts {
 			o.Skew = true
 		case f == "freshmeta":
 			o.FreshMeta = true
+		case f == "fixedclock":
+			o.FixedClock = true
+		case f == "metafs":
+			o.MetaFs = true
+		case f == "negseed":
+			o.NegSeed = true
 		case strings.HasPrefix(f, "metalimit="):
 			o.MetaLimit, _ = strconv.Atoi(f[len("metalimit="):])
 		case strings.HasPrefix(f, "bases="):
